@@ -541,3 +541,16 @@ _addcamp("C14", "copy", 800, 30000)
 _addcamp("C07", "multi", 500, 20000)
 # a `$n` placeholder chosen by the client bounds what ParseParameters allocates (C04): direct calls, every magnitude
 _addcamp("C04", "params", 1200, 60000)
+
+# ---- session 5 (continued): the ErrorResponse builder of error.go (writeErrorResponse, ErrorCode, readyForQuery) translated on
+# every run (Pw/Generated/TransError.lean over Pw/Go/RtError.lean) and proved to send exactly the model's ErrorResponse
+TIE_ERROR = [_T + n for n in ("error_untranslatable_nil", "error_struct_layout", "tie_writeErrorResponse_frame",
+                              "tie_writeErrorResponse", "tie_writeErrorResponse_sent", "tie_writeErrorResponse_sent_counted",
+                              "tie_writeErrorResponse_writeFails", "tie_writeErrorResponse_noPanic",
+                              "tie_writeErrorResponse_latch", "tie_writeErrorResponse_model", "tie_readyForQuery",
+                              "tie_ErrorCode", "tie_ErrorCode_sent", "tie_ErrorCode_writeFails", "tie_ErrorCode_readyFails")]
+_addtie("C17", ["TieError"], TIE_ERROR)
+_addtie("C02", ["TieError"], TIE_ERROR)
+_addtie("C05", ["TieError"], [_T + n for n in ("tie_readyForQuery", "tie_ErrorCode", "tie_ErrorCode_sent",
+                                                "tie_ErrorCode_writeFails", "tie_ErrorCode_readyFails")])
+_addtie("C04", ["TieError"], [_T + "tie_writeErrorResponse_noPanic"])
